@@ -34,7 +34,8 @@ L1 == <<
     ">  ```", "#######", "   >  ~~~", "###### ", "#\t#",
     "[a]: javascript:x", "[A]: data:text/html,y 't'", "- [a]: /u", "> [a]: /u",
     "- <!--", "  x -->", "1. <pre>", "- <?",
-    "> ===", "> ---"
+    "> ===", "> ---",
+    "# a ##", "### a #", "`````", "~~~~"
 >>
 L1Core == {1, 5, 8, 10, 13, 15, 22, 23, 30, 33, 39, 45, 47, 53, 60, 72, 76, 82, 84, 90, 95}
 L2 == <<
@@ -143,6 +144,16 @@ Twins == <<
 >>
 (* L3: line shapes as a PRODUCT of container prefixes and leaves (the hand-picked L1 kept missing single shapes
    such as an indented fence inside a quote or a bare run of seven hashes); documents of one and two lines *)
+(* Container tails: a container block, then k lines that are empty INSIDE the container, then m blank lines   *)
+(* outside it, then a following block - where a container's map ends, and whose lines the empties are.       *)
+TailHeads   == <<"> - a", "> 1. a", "> - a\n> - b", "- > a", "> > a", "> # h", "> ```\n> x", ">     c", "> a", "- a\n  - b",
+                 "1. - a", "> | a |\n> |---|", "> [r]: /u", "> <div>", "- a\n\n  b", "> - > a">>
+TailEmpties == <<">", "> ", ">  ", ">\t", "  ", "">>
+TailTails   == <<"b", "", "- c", "> d", "    e", "  f">>
+(* Fenced blocks whose body holds fence-like lines: opener, body lines, closer ("" = runs to the end) *)
+FenceOpen == <<"```", "````", "`````", "~~~", "~~~~", "``` i", "````i">>
+FenceBody == <<"```", "``", "````", "~~~", "~~~~", "x", "", " ```", "   ````", "    ```", "``` ", "```x", "> ```", "- ```">>
+
 LinePrefixes == <<"", " ", "   ", "    ", "\t", "> ", ">", ">  ", " > ", "> > ", "- ", "-   ", "-\t", "1. ", "10. ", "- > ", "> - ",
                   "  - ", "   > ">>
 LineLeaves == <<"a", "", "  ", "a  ", "a\\", "```", "````", "``` i", "~~~", "#", "# h", "####### ", "#######", "## a ##", "---",
